@@ -26,11 +26,15 @@ type Run struct {
 	Univ  int        `json:"univ"`
 	Alpha *Alphabets `json:"alpha"`
 	Beh   []Step     `json:"beh"`
-	Pred  []string   `json:"pred"` // observation classes the as-found design predicts
+	Pred  []string   `json:"pred"`            // observation classes the as-found design predicts
+	Chain *Scenario  `json:"chain,omitempty"` // chain plans: the scenario (Beh is empty)
+	Text  string     `json:"text,omitempty"`
 	No    int        `json:"no"`
 	Lines []Line     `json:"lines"`
 	Steps int        `json:"steps"`
 	Err   string     `json:"err"`
+	// flagged: pass A (C06 monitors) or pass B flagged a line of this run
+	flagged bool
 }
 
 var (
@@ -52,6 +56,10 @@ func universe(seed int64, id int) *Universe {
 
 // Execute replays the behaviour.
 func (r *Run) Execute() {
+	if r.Chain != nil {
+		r.ExecuteChain()
+		return
+	}
 	u := universe(r.Seed, r.Univ)
 	w, err := NewWorld(u, r.Plan.NN)
 	if err != nil {
